@@ -26,7 +26,23 @@ def main():
         m = re.match(r"fixed:\s+property=(\S+)\s+(\S+)\s+key=(\S+)\s*::\s*(.*)", line)
         if m:
             fixed.append(f"| {m.group(1)} | `{m.group(3)}` | {m.group(2)} | {m.group(4)[:200].replace('|', '/')} |")
-    gen = ["<!-- GEN:BEGIN -->", "", "## 9. Seeded changes (independent sub-agents, property text only) and what catches them", "",
+    # per-property as-built summary from claims + evidence
+    built = []
+    for pid in [f"C{i:02d}" for i in range(1, 21)]:
+        cf = ROOT / "harness" / "claims" / f"{pid}.json"
+        ef = ROOT / "evidence" / f"{pid}.json"
+        if not cf.exists():
+            built.append(f"| {pid} | not claimed | | | | |")
+            continue
+        c = json.loads(cf.read_text())
+        ev = json.loads(ef.read_text()) if ef.exists() else {}
+        cov = ev.get("coverage", {})
+        ths = ", ".join(t["theorem"] for t in cov.get("theorems", [])[:40])
+        partial = "partial" if "partial" in c["text"][:400].lower() else "full"
+        built.append(f"| {pid} | {partial} | {cov.get('discharged', '?')}/{cov.get('obligations', '?')} | {cov.get('evaluations', '?')} ({ev.get('tier', '?')}, "
+                     f"{ev.get('wall_s', '?')} s) | `design/{pid}.md` | {ths[:700]} |")
+    gen = ["<!-- GEN:BEGIN -->", "", "## 8a. As built, per property (generated from harness/claims and the last evidence files)", "",
+           "| id | claim | theorems checked | correspondence cases (tier, wall) | as-built note | theorems |", "|---|---|---|---|---|---|", *built, "", "## 9. Seeded changes (independent sub-agents, property text only) and what catches them", "",
            "Each change was confirmed in a scratch worktree (`harness/seeded.py`: unedited suite still 196 passed; demo fails with / passes "
            "without the change) and then applied to `/repo`, the property's quick check run, and undone.", "",
            "| seeded | change | needs | quick check | how it is caught / what was strengthened |", "|---|---|---|---|---|", *rows, "",
